@@ -48,11 +48,14 @@ type Site struct {
 
 const (
 	lMu, lSearch, lInsert, lDmu = 1, 2, 3, 4
+	lEmit                       = 5 // pseudo-lock: held while no emitter of this exporter can be running unsupervised
+	lHandle                     = 6 // Runtime.handleMu
 )
 
 var fieldNames = map[int]string{1: "Metric.LabelValues", 2: "Metric.labelValuesMap", 3: "Metric.Source",
 	4: "LabelValue.Expiry", 5: "Metric.(immutable)", 6: "LabelValue.(immutable)", 7: "Store.Metrics",
-	8: "Int.Value", 9: "Float.Valuebits", 10: "BaseDatum.Time", 11: "Buckets.(data)", 12: "String.Value"}
+	8: "Int.Value", 9: "Float.Valuebits", 10: "BaseDatum.Time", 11: "Buckets.(data)", 12: "String.Value",
+	13: "Metric.(emitter finished)", 14: "Runtime.handles", 15: "vmHandle.lines"}
 
 func modeCoq(w bool) string {
 	if w {
@@ -149,6 +152,10 @@ func specOf(f int) int {
 		return -1
 	case 11, 12:
 		return lDmu
+	case 13:
+		return lEmit
+	case 14, 15:
+		return lHandle
 	}
 	return 0
 }
@@ -365,6 +372,45 @@ func NewLockXlate(metrics, datum, exporter *Pkg) *LockXlate {
 		Sites: []Site{{Fn: "-", Field: "branch outside a loop"}}, siteIdx: map[string]int{}}
 }
 
+// WithRuntime adds internal/runtime (handles table, vm input channels).
+func (x *LockXlate) WithRuntime(rt *Pkg) *LockXlate { x.Pkgs["runtime"] = rt; return x }
+
+// LineLoopEntry translates the goroutine of runtime.New that fans lines out
+// (the function literal that ranges over `lines`); `r` is the Runtime.
+func (x *LockXlate) LineLoopEntry() ([]LNode, error) {
+	rt := x.Pkgs["runtime"]
+	if rt == nil || rt.Funcs["New"] == nil || rt.Funcs["New"].Body == nil {
+		return nil, fmt.Errorf("runtime.New not found")
+	}
+	var lit *ast.FuncLit
+	ast.Inspect(rt.Funcs["New"].Body, func(n ast.Node) bool {
+		g, ok := n.(*ast.GoStmt)
+		if !ok || lit != nil {
+			return lit == nil
+		}
+		if l, ok := g.Call.Fun.(*ast.FuncLit); ok {
+			ast.Inspect(l.Body, func(m ast.Node) bool {
+				if r, ok := m.(*ast.RangeStmt); ok {
+					if id, ok := r.X.(*ast.Ident); ok && id.Name == "lines" {
+						lit = l
+					}
+				}
+				return lit == nil
+			})
+		}
+		return lit == nil
+	})
+	if lit == nil {
+		return nil, fmt.Errorf("the line loop of runtime.New not found")
+	}
+	nsym := 1
+	env := &lenv{vars: map[string]val{"r": {t: "Runtime", sym: 1}}}
+	var defers []LNode
+	c := &lctx{x: x, pkg: "runtime", fn: "New.lineloop", env: env, nsym: &nsym, top: true, defers: &defers,
+		emitter: &emitterInfo{chans: map[string]int{}}}
+	return c.block(lit.Body.List), nil
+}
+
 func (x *LockXlate) site(fn, field, pos, kind string) int {
 	k := fn + "|" + field + "|" + pos + "|" + kind
 	if i, ok := x.siteIdx[k]; ok {
@@ -409,6 +455,26 @@ type lctx struct {
 	defers  *[]LNode
 	depth   int
 	emitter *emitterInfo
+	// emitter supervision (see lockOp): this function starts an emitter goroutine;
+	// we are inside the loop that receives from it (for metric symbol emitMsym),
+	// innerLoops loops deeper
+	hasSpawn   bool
+	emitOn     bool
+	emitMsym   int
+	innerLoops int
+}
+
+func spawnsEmitter(n ast.Node) bool {
+	found := false
+	ast.Inspect(n, func(x ast.Node) bool {
+		if g, ok := x.(*ast.GoStmt); ok {
+			if sel, ok := g.Call.Fun.(*ast.SelectorExpr); ok && sel.Sel.Name == "EmitLabelSets" {
+				found = true
+			}
+		}
+		return !found
+	})
+	return found
 }
 
 type emitterInfo struct {
@@ -450,6 +516,10 @@ func declType(e ast.Expr) string {
 		return "Store"
 	case "LabelValue":
 		return "LV"
+	case "Runtime":
+		return "Runtime"
+	case "vmHandle":
+		return "Handle"
 	case "Int", "Float", "String", "Buckets", "BaseDatum":
 		if _, isStar := e.(*ast.StarExpr); isStar {
 			return typeName(e)
@@ -495,6 +565,14 @@ func (c *lctx) typeOf(e ast.Expr) val {
 			if e.Sel.Name == "Metrics" {
 				return val{t: "MetricMap", sym: b.sym}
 			}
+		case "Runtime":
+			if e.Sel.Name == "handles" {
+				return val{t: "HandleMap", sym: b.sym}
+			}
+		case "Handle":
+			if e.Sel.Name == "lines" {
+				return val{t: "HLines", sym: b.sym}
+			}
 		case "LV":
 			if e.Sel.Name == "Value" {
 				return val{t: "Datum"}
@@ -526,11 +604,20 @@ func (c *lctx) typeOf(e ast.Expr) val {
 			return val{t: "LV", sym: b.sym, fresh: b.fresh}
 		case "BucketSlice":
 			return val{t: "Bucket", sym: b.sym}
+		case "HandleMap":
+			return val{t: "Handle", sym: b.sym}
+		case "HLinesSlice":
+			return val{t: "HLines", sym: b.sym}
 		}
 	case *ast.SliceExpr:
 		return c.typeOf(e.X)
 	case *ast.CallExpr:
 		if id, ok := e.Fun.(*ast.Ident); ok && id.Name == "append" && len(e.Args) > 0 {
+			for _, a := range e.Args[1:] {
+				if av := c.typeOf(a); av.t == "HLines" { // a collection of vm input channels
+					return val{t: "HLinesSlice", sym: av.sym}
+				}
+			}
 			return c.typeOf(e.Args[0])
 		}
 		if id, ok := e.Fun.(*ast.Ident); ok && id.Name == "make" && len(e.Args) > 0 {
@@ -649,6 +736,14 @@ func (c *lctx) selector(e *ast.SelectorExpr, a string) []LNode {
 		if name == "Metrics" {
 			return append(out, c.acc(e, b.sym, 7, a)...)
 		}
+	case "Runtime":
+		if name == "handles" {
+			return append(out, c.acc(e, b.sym, 14, a)...)
+		}
+	case "Handle":
+		if name == "lines" {
+			return append(out, c.acc(e, b.sym, 15, a)...)
+		}
 	case "Int":
 		if name == "Value" {
 			return append(out, c.acc(e, b.sym, 8, a)...)
@@ -728,21 +823,45 @@ func (c *lctx) lockOp(call *ast.CallExpr) ([]LNode, bool) {
 				o, l = bb.sym, lInsert
 			case bb.t == "String" && s2.Sel.Name == "mu":
 				o, l = bb.sym, lDmu
+			case bb.t == "Runtime" && s2.Sel.Name == "handleMu":
+				o, l = bb.sym, lHandle
 			}
 		}
 	}
 	if l == 0 || o < 0 {
 		return []LNode{c.unknown(call, "lock operation on an unrecognised object")}, true
 	}
+	// In a function that starts an emitter goroutine, taking the metric lock also
+	// takes the pseudo-lock "no emitter of mine runs unsupervised"; releasing the
+	// metric lock requires it (pseudo-field 13) and gives it up.
+	emit := c.hasSpawn && l == lMu
+	acq := func(w bool) []LNode {
+		ns := []LNode{{K: "Acq", O: o, L: l, W: w}}
+		if emit {
+			ns = append(ns, LNode{K: "Acq", O: o, L: lEmit})
+		}
+		return ns
+	}
+	rel := func(w bool) []LNode {
+		var ns []LNode
+		if emit {
+			ns = append(ns, c.acc(call, o, 13, "R")...)
+		}
+		ns = append(ns, LNode{K: "Rel", O: o, L: l, W: w})
+		if emit {
+			ns = append(ns, LNode{K: "Rel", O: o, L: lEmit})
+		}
+		return ns
+	}
 	switch sel.Sel.Name {
 	case "Lock":
-		return []LNode{{K: "Acq", O: o, L: l, W: true}}, true
+		return acq(true), true
 	case "RLock":
-		return []LNode{{K: "Acq", O: o, L: l, W: false}}, true
+		return acq(false), true
 	case "Unlock":
-		return []LNode{{K: "Rel", O: o, L: l, W: true}}, true
+		return rel(true), true
 	case "RUnlock":
-		return []LNode{{K: "Rel", O: o, L: l, W: false}}, true
+		return rel(false), true
 	}
 	return []LNode{c.unknown(call, "lock operation outside the vocabulary")}, true
 }
@@ -819,7 +938,23 @@ func (c *lctx) call(call *ast.CallExpr) []LNode {
 			if len(call.Args) == 2 {
 				return append(c.expr(call.Args[1]), c.lvalue(call.Args[0])...)
 			}
-		case "close", "panic", "recover":
+		case "close":
+			if len(call.Args) == 1 {
+				av := c.typeOf(call.Args[0])
+				if av.t == "HLines" { // closing a vm's input channel: a write use of it
+					out := c.args(call)
+					if sel, ok := call.Args[0].(*ast.SelectorExpr); ok {
+						// the selector read emitted by args is upgraded to a write
+						return append(c.expr(sel.X), c.acc(call, av.sym, 15, "W")...)
+					}
+					return append(out, c.acc(call, av.sym, 15, "W")...)
+				}
+				if av.t != "Chan" {
+					return c.args(call) // some other channel (done, signalQuit, ...)
+				}
+			}
+			return []LNode{c.unknown(call, "close of a label-set channel")}
+		case "panic", "recover":
 			return []LNode{c.unknown(call, "call of "+id.Name)}
 		case "len", "cap", "append", "make", "new", "copy", "string", "int", "int64", "float64", "uint64":
 			return c.args(call)
@@ -864,10 +999,16 @@ func (c *lctx) call(call *ast.CallExpr) []LNode {
 	switch recv.t {
 	case "Datum", "LabelSet":
 		return append(c.expr(sel.X), c.args(call)...)
-	case "Metric", "Store", "Int", "Float", "String", "Buckets", "BaseDatum":
+	case "Metric", "Store", "Int", "Float", "String", "Buckets", "BaseDatum", "Runtime":
 		pkg := "metrics"
 		if datumTypes[recv.t] {
 			pkg = "datum"
+		}
+		if recv.t == "Runtime" {
+			pkg = "runtime"
+			if c.x.Pkgs[pkg] == nil || c.x.Pkgs[pkg].Funcs["Runtime."+sel.Sel.Name] == nil {
+				return append(c.expr(sel.X), c.args(call)...)
+			}
 		}
 		tn := recv.t
 		d := c.x.Pkgs[pkg].Funcs[tn+"."+sel.Sel.Name]
@@ -977,6 +1118,8 @@ func (c *lctx) inline(at ast.Node, pkg string, d *ast.FuncDecl, recv val, args [
 						s := c.fresh()
 						pre = append(pre, LNode{K: "Bind", O: s})
 						v.sym = s
+					case v.t == "Handle":
+						v.sym = recv.sym // a handle of the receiving Runtime (new or old)
 					}
 					if fl, ok := args[i].(*ast.FuncLit); ok {
 						v = val{t: "Closure", lit: fl, env: c.env, pkg: c.pkg}
@@ -990,7 +1133,8 @@ func (c *lctx) inline(at ast.Node, pkg string, d *ast.FuncDecl, recv val, args [
 		}
 	}
 	var defers []LNode
-	sub := &lctx{x: c.x, pkg: pkg, fn: funcKey(d), env: env, nsym: c.nsym, top: false, defers: &defers, depth: c.depth + 1}
+	sub := &lctx{x: c.x, pkg: pkg, fn: funcKey(d), env: env, nsym: c.nsym, top: false, defers: &defers, depth: c.depth + 1,
+		emitter: &emitterInfo{chans: map[string]int{}}, hasSpawn: spawnsEmitter(d.Body)}
 	body := sub.block(d.Body.List)
 	return append(append(pre, body...), defers...)
 }
@@ -1024,7 +1168,7 @@ func (c *lctx) inlineClosure(at *ast.CallExpr, v val) []LNode {
 	}
 	var defers []LNode
 	sub := &lctx{x: c.x, pkg: v.pkg, fn: c.closureName(v), env: env, nsym: c.nsym, top: false, defers: &defers, depth: c.depth + 1,
-		emitter: &emitterInfo{chans: map[string]int{}}}
+		emitter: &emitterInfo{chans: map[string]int{}}, hasSpawn: spawnsEmitter(v.lit.Body)}
 	body := sub.block(v.lit.Body.List)
 	return append(append(pre, body...), defers...)
 }
@@ -1061,8 +1205,19 @@ func (c *lctx) block(ss []ast.Stmt) []LNode {
 				c.env = &lenv{vars: map[string]val{}, parent: saved}
 				out = append(out, c.stmt(ifs.Init)...)
 				out = append(out, c.expr(ifs.Cond)...)
-				then := c.stmt(ifs.Body)
-				rest := c.block(ss[i+1:])
+				// deferred unlocks registered on one of the two paths run at the end of
+				// that path only
+				scoped := func(f func() []LNode) []LNode {
+					before := len(*c.defers)
+					ns := f()
+					cur := *c.defers
+					k := len(cur) - before
+					mine := append([]LNode{}, cur[:k]...)
+					*c.defers = cur[k:]
+					return append(ns, mine...)
+				}
+				then := scoped(func() []LNode { return c.stmt(ifs.Body) })
+				rest := scoped(func() []LNode { return c.block(ss[i+1:]) })
 				c.env = saved
 				return append(out, LNode{K: "If", Then: then, Else: rest})
 			}
@@ -1138,7 +1293,13 @@ func (c *lctx) stmt(s ast.Stmt) []LNode {
 	case *ast.ExprStmt:
 		return c.expr(s.X)
 	case *ast.SendStmt:
-		return append(c.expr(s.Chan), c.expr(s.Value)...)
+		out := append(c.expr(s.Value), c.expr(s.Chan)...)
+		if _, isId := s.Chan.(*ast.Ident); isId {
+			if cv := c.typeOf(s.Chan); cv.t == "HLines" { // a vm input channel held in a local
+				out = append(out, c.acc(s, cv.sym, 15, "R")...)
+			}
+		}
+		return out
 	case *ast.IncDecStmt:
 		return c.lvalue(s.X)
 	case *ast.DeclStmt:
@@ -1208,9 +1369,21 @@ func (c *lctx) stmt(s ast.Stmt) []LNode {
 			if b := c.typeOf(sel.X); b.t == "Metric" && b.sym >= 0 {
 				if id, ok := s.Call.Args[0].(*ast.Ident); ok && c.emitter != nil {
 					c.emitter.chans[id.Name] = b.sym
-					return c.emitterBody(s, b.sym)
+					out := c.emitterBody(s, b.sym)
+					if c.hasSpawn {
+						out = append(out, LNode{K: "Rel", O: b.sym, L: lEmit})
+					}
+					return out
 				}
 			}
+		}
+		if _, isLit := s.Call.Fun.(*ast.FuncLit); isLit {
+			// another goroutine: only the evaluation of its arguments happens here
+			var out []LNode
+			for _, a := range s.Call.Args {
+				out = append(out, c.expr(a)...)
+			}
+			return out
 		}
 		return []LNode{c.unknown(s, "go statement")}
 	case *ast.ReturnStmt:
@@ -1220,6 +1393,13 @@ func (c *lctx) stmt(s ast.Stmt) []LNode {
 		}
 		if c.top {
 			out = append(out, LNode{K: "Return"})
+		} else if c.emitOn {
+			// leaving the loop that receives from the emitter without running it to the close
+			if c.innerLoops == 0 {
+				out = append(out, LNode{K: "Break"})
+			} else {
+				out = append(out, c.unknown(s, "return from a loop nested in the emitter loop"))
+			}
 		}
 		return out
 	case *ast.BranchStmt:
@@ -1228,6 +1408,10 @@ func (c *lctx) stmt(s ast.Stmt) []LNode {
 		}
 		switch s.Tok {
 		case token.CONTINUE:
+			if c.emitOn && c.innerLoops == 0 && c.hasSpawn {
+				// back at the receive from the emitter
+				return []LNode{{K: "Acq", O: c.emitMsym, L: lEmit}, {K: "Continue"}}
+			}
 			return []LNode{{K: "Continue"}}
 		case token.BREAK:
 			return []LNode{{K: "Break"}}
@@ -1249,7 +1433,9 @@ func (c *lctx) stmt(s ast.Stmt) []LNode {
 		c.env = &lenv{vars: map[string]val{}, parent: saved}
 		out := c.stmt(s.Init)
 		head := append(c.stmt(s.Post), c.expr(s.Cond)...)
+		c.innerLoops++
 		body := append(head, c.stmt(s.Body)...)
+		c.innerLoops--
 		if !pureLoopBody(body) {
 			out = append(out, LNode{K: "Loop", Body: body, Site: c.x.site(c.fn, "loop", c.p().at(s), "L")})
 		}
@@ -1271,14 +1457,35 @@ func (c *lctx) stmt(s ast.Stmt) []LNode {
 			pre = c.bindRangeVar(s.Value, val{t: "LV", sym: xv.sym, fresh: xv.fresh})
 		case "LVMap":
 			pre = c.bindRangeVar(s.Value, val{t: "LV", sym: xv.sym, fresh: xv.fresh})
+		case "HLinesSlice":
+			pre = c.bindRangeVar(s.Value, val{t: "HLines", sym: xv.sym})
 		case "Chan":
 			if id, ok := s.X.(*ast.Ident); ok && c.emitter != nil {
 				if msym, ok := c.emitter.chans[id.Name]; ok {
-					pre = c.emitterBody(s, msym) // the emitter reads the next label value
 					if s.Key != nil {
 						c.bindRangeVar(s.Key, val{t: "LabelSet", sym: msym})
 					}
-					break
+					// Supervision: the consumer is at its receive loop (Acq lEmit before
+					// the loop, held at every loop head); an iteration either sees the
+					// channel closed (leaves, still holding it) or takes an item (gives it
+					// up while the body runs, so every other way out of the loop loses
+					// it) and is back at the receive at the end of the body.
+					saveOn, saveM, saveIn := c.emitOn, c.emitMsym, c.innerLoops
+					c.emitOn, c.emitMsym, c.innerLoops = true, msym, 0
+					var body []LNode
+					if c.hasSpawn {
+						out = append(out, LNode{K: "Acq", O: msym, L: lEmit})
+						body = append(body, LNode{K: "If", Then: []LNode{{K: "Break"}}}, LNode{K: "Rel", O: msym, L: lEmit})
+					}
+					body = append(body, c.emitterBody(s, msym)...) // the emitter reads the next label value
+					body = append(body, c.stmt(s.Body)...)
+					if c.hasSpawn {
+						body = append(body, LNode{K: "Acq", O: msym, L: lEmit})
+					}
+					c.emitOn, c.emitMsym, c.innerLoops = saveOn, saveM, saveIn
+					out = append(out, LNode{K: "Loop", Body: body, Site: c.x.site(c.fn, "loop", c.p().at(s), "L")})
+					c.env = saved
+					return out
 				}
 			}
 			pre = []LNode{c.unknown(s, "range over an unrecognised channel")}
@@ -1295,7 +1502,9 @@ func (c *lctx) stmt(s ast.Stmt) []LNode {
 				c.env.vars[id.Name] = val{t: "Other"}
 			}
 		}
+		c.innerLoops++
 		body := append(pre, c.stmt(s.Body)...)
+		c.innerLoops--
 		if !pureLoopBody(body) {
 			out = append(out, LNode{K: "Loop", Body: body, Site: c.x.site(c.fn, "loop", c.p().at(s), "L")})
 		}
@@ -1461,6 +1670,6 @@ func (x *LockXlate) Entry(pkg, fn string, freshParams map[string]bool) ([]LNode,
 	}
 	var defers []LNode
 	c := &lctx{x: x, pkg: pkg, fn: fn, env: env, nsym: &nsym, top: true, defers: &defers,
-		emitter: &emitterInfo{chans: map[string]int{}}}
+		emitter: &emitterInfo{chans: map[string]int{}}, hasSpawn: spawnsEmitter(d.Body)}
 	return c.block(d.Body.List), nil
 }
